@@ -57,6 +57,37 @@ fn build<C: Oracle>(rows: &[usize]) -> Seq<C> {
     }
     s
 }
+/// Owned sequences with the content `rows` but different histories: stale bits beyond the end of the live bits, spare
+/// capacity, rebuilt from a dirty image, assembled by edits.  Every property about owned sequences must hold for all of them.
+fn history_variants<C: Oracle>(rows: &[usize]) -> Vec<(&'static str, Seq<C>)> {
+    let n = rows.len();
+    let mut v: Vec<(&'static str, Seq<C>)> = vec![("pushed", build::<C>(rows))];
+    let mut longer = rows.to_vec();
+    longer.extend((0..5).map(|_| C::len() - 1));
+    let mut t = build::<C>(&longer);
+    t.truncate(n);
+    v.push(("truncated", t));
+    let mut r = build::<C>(&longer);
+    r.remove(n..);
+    v.push(("tail removed", r));
+    let mut r2 = { let mut l = vec![C::len() - 1; 3]; l.extend(rows); build::<C>(&l) };
+    r2.remove(..3);
+    v.push(("head removed", r2));
+    let img: Vec<usize> = { let mut w = build::<C>(&longer).into_raw().to_vec(); w.push(usize::MAX); w };
+    if let Some(fr) = Seq::<C>::from_raw(n, &img) {
+        v.push(("from_raw with a dirty tail", fr));
+    }
+    let mut c = build::<C>(&longer);
+    c.clear();
+    c.extend(rows.iter().map(|&x| C::entry(x).sym));
+    v.push(("cleared and extended", c));
+    if n >= 2 {
+        let mut p = build::<C>(&rows[n / 2..]);
+        p.prepend(&build::<C>(&rows[..n / 2]));
+        v.push(("prepended", p));
+    }
+    v
+}
 fn text_of<C: Oracle>(rows: &[usize]) -> Vec<u8> {
     rows.iter().map(|&r| C::entry(r).ch).collect()
 }
@@ -195,6 +226,13 @@ fn c01_codec<C: Oracle>(rep: &mut Report, thorough: bool, rng: &mut Rng) {
             check_parse::<C>(rep, st.parse::<Seq<C>>(), bytes, "str::parse");
         }
         if let Ok(rows) = expected_parse::<C>(bytes) {
+            if bytes.len() > 4 {
+                let canon: Vec<u8> = rows.iter().map(|&r| C::entry(r).ch).collect();
+                for (how, h) in history_variants::<C>(&rows) {
+                    rep.expect(h.to_string().as_bytes() == &canon[..] && String::from(&h).as_bytes() == &canon[..] && Seq::<C>::try_from(h.to_string().as_str()).map(|s| s == h) == Ok(true),
+                        "C01 display -> parse -> display is the identity whatever the sequence's history", || format!("{} {} history={}", C::NAME, show(bytes), how));
+                }
+            }
             let syms: Vec<C> = rows.iter().map(|&r| C::entry(r).sym).collect();
             let a: Seq<C> = syms.iter().copied().collect();
             let mut b = Seq::<C>::new();
@@ -744,6 +782,13 @@ fn c07_rev<C: Oracle>(rep: &mut Report, maxlen: usize, rng: &mut Rng) {
                 rep.expect(inplace == r, "C07 in-place rev on a copy equals to_rev", || format!("{} {}", C::NAME, sl));
                 inplace.rev();
                 rep.expect(rows_of::<C>(&inplace) == rows, "C07 rev twice restores the original", || format!("{} {}", C::NAME, sl));
+                if off == 0 {
+                    for (how, mut h) in history_variants::<C>(&rows) {
+                        let copy = h.to_rev();
+                        h.rev();
+                        rep.expect(rows_of::<C>(&h) == want && h == r && copy == r && h.len() == n, "C07 reversing an owned sequence does not depend on its history", || format!("{} {} history={} -> {}", C::NAME, sl, how, h));
+                    }
+                }
             });
         }
     }
@@ -780,6 +825,14 @@ macro_rules! c07_comp {
                 let mut o2 = sl.to_owned();
                 o2.revcomp();
                 rep.expect(o2 == rc, "C07 in-place revcomp equals to_revcomp", || format!("{} {}", C::NAME, sl));
+                if off == 0 {
+                    for (how, h) in history_variants::<C>(&rows) {
+                        let (mut hc, mut hrc) = (h.clone(), h.clone());
+                        hc.comp();
+                        hrc.revcomp();
+                        rep.expect(hc == c && hrc == rc && h.to_comp() == c && h.to_revcomp() == rc && rows_of::<C>(&h) == rows, "C07 complementing an owned sequence does not depend on its history", || format!("{} {} history={}", C::NAME, sl, how));
+                    }
+                }
             });
         }
     }
@@ -841,6 +894,12 @@ macro_rules! c20_codec {
             ip.unmask();
             rep.expect(ip == u, "C20 in-place unmask equals to_unmask", || format!("{} {}", C::NAME, s));
             rep.expect(m.to_comp() == s.to_comp().to_mask() && m.to_rev() == s.to_rev().to_mask() && m.to_revcomp() == s.to_revcomp().to_mask(), "C20 masking commutes with complement and reverse", || format!("{} {}", C::NAME, s));
+            for (how, mut h) in history_variants::<C>(&rows) {
+                let copy = h.to_mask();
+                let ucopy = h.to_unmask();
+                h.mask();
+                rep.expect(h == m && copy == m && ucopy == u, "C20 masking an owned sequence does not depend on its history", || format!("{} {} history={}", C::NAME, s, how));
+            }
             if C::WIDTH == 5 {
                 rep.expect(m.to_mask() == m && u.to_unmask() == u && m.to_unmask() == u, "C20 mask/unmask idempotent; unmask after mask equals unmask", || format!("{} {}", C::NAME, s));
             } else {
@@ -923,6 +982,12 @@ fn c08_k<C: Oracle, const K: usize>(rep: &mut Report, rng: &mut Rng) {
             }
             let r2: Result<Kmer<C, K>, _> = Kmer::try_from(sl.to_owned());
             rep.expect(r2.is_ok() == (n == K), "C08 try_from an owned sequence succeeds exactly for length K", || format!("{} K={} n={}", C::NAME, K, n));
+            for (how, h) in history_variants::<C>(&rows) {
+                let hk: Vec<usize> = h.kmers::<K>().map(|k| k.bs).collect();
+                let sk: Vec<usize> = sl.kmers::<K>().map(|k| k.bs).collect();
+                let direct: Result<Kmer<C, K>, _> = Kmer::try_from(h.clone());
+                rep.expect(hk == sk && direct.is_ok() == (n == K) && (n != K || direct.as_ref().map(|k| k.bs).ok() == sk.first().copied()), "C08 the k-mers of an owned sequence do not depend on its history", || format!("{} K={} n={} history={}", C::NAME, K, n, how));
+            }
             if n == K {
                 // the other construction routes agree with try_from
                 let a: Kmer<C, K> = Kmer::try_from(sl).unwrap();
@@ -1069,6 +1134,11 @@ fn c11_codec<C: Oracle + core::fmt::Debug>(rep: &mut Report, rng: &mut Rng) {
             let owned = sl.to_owned();
             let f3: Vec<C> = (&owned).into_iter().collect();
             rep.expect(f3 == want, "C11 &Seq iterates like its slice", || format!("{} {}", C::NAME, sl));
+            for (how, h) in history_variants::<C>(&rows) {
+                let f4: Vec<C> = (&h).into_iter().collect();
+                let r4: Vec<C> = h.rev_iter().collect();
+                rep.expect(f4 == want && r4 == wr && h.iter().count() == n && h.windows(2).count() == n.saturating_sub(1) && h.chunks(3).count() == n / 3, "C11 iterating an owned sequence does not depend on its history", || format!("{} {} history={}", C::NAME, sl, how));
+            }
             for w in 1..n + 3 {
                 let ws: Vec<Vec<usize>> = sl.windows(w).map(|x| rows_of::<C>(x)).collect();
                 let cs: Vec<Vec<usize>> = sl.chunks(w).map(|x| rows_of::<C>(x)).collect();
@@ -1133,6 +1203,15 @@ fn c12(_tier: &str, seed: u64) -> Report {
                 rep.expect(rows_of::<Iupac>(&or) == wor, "C12 | yields the union's ambiguity code at each position", || format!("{} | {} = {}", sx, sy, or));
                 rep.expect(rows_of::<Iupac>(&and) == wand, "C12 & yields the intersection's code (gap for empty)", || format!("{} & {} = {}", sx, sy, and));
                 rep.expect(sx.to_owned().bit_or(sy.to_owned()) == or && sx.to_owned().bit_and(sy.to_owned()) == and, "C12 owned operands give the same result", || format!("{} {}", sx, sy));
+                if a % 4 == 0 && b % 4 == 1 {
+                    for (how, hx) in history_variants::<Iupac>(&x) {
+                        for (how2, hy) in history_variants::<Iupac>(&y).into_iter().take(3) {
+                            let ok = hx.clone().bit_or(hy.clone()) == or && hx.clone().bit_and(hy.clone()) == and && (&hx[..] | &hy[..]) == or && (&hx[..] & &hy[..]) == and
+                                && hx.contains(&hy) == sx.contains(sy) && (&hx[..]).contains(&hy) == sx.contains(sy);
+                            rep.expect(ok, "C12 set operations on owned sequences do not depend on their history", || format!("{} ({}) vs {} ({})", hx, how, hy, how2));
+                        }
+                    }
+                }
                 let sub = (0..3).all(|i| setof(y[i]) & setof(x[i]) == setof(y[i]));
                 rep.expect(sx.contains(sy) == sub && sx.to_owned().contains(sy) == sub, "C12 contains <=> every position of the argument is a subset", || format!("{} contains {}", sx, sy));
             }
@@ -1248,6 +1327,13 @@ fn c19(tier: &str, seed: u64) -> Report {
             let t: Seq<text::Dna> = Seq::from(sl);
             rep.expect(i.len() == sl.len() && i.to_string() == sl.to_string(), "C19 DNA -> IUPAC keeps length and letters", || format!("{} -> {}", sl, i));
             rep.expect(t.len() == sl.len() && t.to_string() == sl.to_string(), "C19 DNA -> text keeps length and letters", || format!("{} -> {}", sl, t));
+            if rows.len() > 3 {
+                for (how, h) in history_variants::<Dna>(rows) {
+                    let hi: Seq<Iupac> = Seq::from(&h[..]);
+                    let ht: Seq<text::Dna> = Seq::from(&h[..]);
+                    rep.expect(hi == i && ht == t, "C19 converting an owned sequence does not depend on its history", || format!("{} history={}", sl, how));
+                }
+            }
         });
     }
     let lit = dna!("ACGTTGCAACGT");
